@@ -585,7 +585,16 @@ func DrawHEIFOpts(l *core.Lane, tiff []byte, surround bool, ho HEIFOpts) *HEIF {
 		}
 		infes = append(infes, infe(uint16(3+i), typ, extra))
 	}
-	iinf := fullBox("iinf", 0, 0, append([][]byte{be16(uint16(len(infes)))}, infes...)...)
+	nInfe := len(infes)
+	switch ho.InfeVariants % 4 {
+	case 1:
+		infes = append(infes, make([]byte, 8)) // zero padding at the end of iinf (a size-0 non-entry)
+	case 2:
+		infes = append(infes, Box("free", []byte{1, 2, 3}))
+	case 3:
+		infes = append(infes[:1], append([][]byte{Box("skip")}, infes[1:]...)...) // an empty box between entries
+	}
+	iinf := fullBox("iinf", 0, 0, append([][]byte{be16(uint16(nInfe))}, infes...)...)
 	iprp := Box("iprp", Box("ipco", fullBox("ispe", 0, 0, be32(4000), be32(3000))), fullBox("ipma", 0, 0, be32(1), be16(1), []byte{1, 0x81}))
 	// Exif item payload: exif_tiff_header_offset(4) = 6, "Exif\0\0", TIFF
 	item := append(be32(6), []byte("Exif\x00\x00")...)
